@@ -174,7 +174,10 @@ Value& MemberCONCATExpression::value(Context& ctx) const
       case Type::INTEGER:
         if (a0_type == Type::NUMERIC)
         {
-          rv->push_back(Value(Integer(*a0.numeric())));
+          if (a0.isNull())
+            rv->push_back(Value(Value::type_integer));
+          else
+            rv->push_back(Value(Integer(*a0.numeric())));
           return val;
         }
         else if (a0.type() == Type::NO_TYPE)
@@ -186,7 +189,10 @@ Value& MemberCONCATExpression::value(Context& ctx) const
       case Type::NUMERIC:
         if (a0_type == Type::INTEGER)
         {
-          rv->push_back(Value(Numeric(*a0.integer())));
+          if (a0.isNull())
+            rv->push_back(Value(Value::type_numeric));
+          else
+            rv->push_back(Value(Numeric(*a0.integer())));
           return val;
         }
         else if (a0.type() == Type::NO_TYPE)
